@@ -243,3 +243,8 @@ CHECKS["C15"]["runs"] += [rdp("VerifRdFail", c, n, {"with": w}, ["C15:"], ["faul
 
 # a header cut short (also inside the optional FHCRC field) must end in io.ErrUnexpectedEOF, as in compress/gzip
 CHECKS["C07"]["runs"] += [gz("VerifGzHdrRead", {}, {"X": 4}, ["C06:header-error"], ["accepted", "rejected"])]
+
+CHECKS["C01"]["runs"] += [dict(wr("VerifKHuffGen", {}, {"NSYM": n, "LIMIT": lim, "SIZE": 8, "SMALL": 0}, ["C01:"], ["single", "several"], tiers=tiers), pkg=HUFFMAN)
+                          for (n, lim, tiers) in [(4, 2, ["quick", "thorough"]), (4, 15, ["quick", "thorough"]), (5, 3, ["quick", "thorough"]), (5, 15, ["quick", "thorough"]),
+                                                  (6, 3, ["thorough"]), (6, 4, ["thorough"]), (6, 15, ["thorough"])]]
+CHECKS["C01"]["assumptions"].append("Huffman code-length generation (LenLimitedCode.Generate incl. the unsafe sort, Moffat's algorithm and enforceMaxLen, then GenerateCode2) is decided for histograms with up to 5 (thorough: 6) symbolic 16-bit counts at limits 2..4 and 15: complete prefix code, lengths within the limit, no code for absent symbols; larger alphabets only through the concrete data of the operation sequences")
